@@ -715,7 +715,14 @@ def _spec(case, out):
             bad.append("[C10-lifecycle] child start/stop counts do not follow the key set: cycle %d stopped %d started %d, key set removed %d added %d" % (cyc - 1, us, ust, len(removed), len(added)))
         runs = f.get("run", "-")
         if key:
-            grun = set() if runs == "-" else {int(x) for x in runs.split(",")}
+            toks = [] if runs == "-" else runs.split(",")
+            unk = [x for x in toks if not x.lstrip("-").isdigit()]
+            if unk:
+                # a child graph ran whose key tag the harness could not read (never tagged: its first evaluation,
+                # which records the key, did not happen although the child exists)
+                bad.append("[C10-isolation] a child was evaluated whose own first evaluation never happened (no key tag): "
+                           "cycle %d run=%s" % (cyc - 1, runs))
+            grun = {int(x) for x in toks if x.lstrip("-").isdigit()}
             if grun != exp_run:
                 extra, missing = sorted(grun - exp_run), sorted(exp_run - grun)
                 bad.append("%s the children evaluated are not the keys with own input ticks / due wake-ups: cycle %d evaluated %s, expected %s (extra %s, missing %s)" %
